@@ -200,6 +200,12 @@ func (p *Prog) genFunc(key string) (*FnCtx, error) {
 		for _, rq := range c.contract.Requires {
 			c.assume(st, c.evalClause(st, rq, nil))
 		}
+		if len(c.contract.Splits) > 0 {
+			v := c.evalCExpr(st, c.contract.Splits[0].Expr, nil)
+			if sv, ok := v.(SV); ok && sv.S.K == KBV {
+				c.splitTerm = SV{c.define("splitv", sv.S, sv.T), sv.S, sv.Signed}
+			}
+		}
 	}
 	// vacuity: the preconditions must be satisfiable
 	c.obls = append(c.obls, &Obl{Name: key + ".smoke.requires", Kind: "smoke", Desc: "preconditions are satisfiable", Prefix: len(c.log), PC: "true", Goal: "false", Pos: fd.Pos(), Smoke: true})
@@ -249,8 +255,9 @@ func (p *Prog) genFunc(key string) (*FnCtx, error) {
 			}
 			env := &CEnv{vars: vars, old: c.entry, oldV: c.entryCtr}
 			for k, en := range c.contract.Ensures {
-				g := c.evalClause(final, en, env)
-				c.obligeNamed(final, fmt.Sprintf("post.%d", k+1), "post", fd.End(), g, "postcondition: "+en.Text)
+				for _, ng := range c.clauseGoals(final, en, env) {
+					c.obligeNamed(final, fmt.Sprintf("post.%d%s", k+1, ng.suffix), "post", fd.End(), ng.goal, "postcondition: "+en.Text+ng.desc)
+				}
 			}
 		}
 	}
@@ -293,10 +300,16 @@ func (p *Prog) genLemma(key string) (*FnCtx, error) {
 	for _, rq := range ct.Requires {
 		c.assume(st, c.evalClause(st, rq, env))
 	}
+	if len(ct.Splits) > 0 {
+		if sv, ok := c.evalCExpr(st, ct.Splits[0].Expr, env).(SV); ok && sv.S.K == KBV {
+			c.splitTerm = SV{c.define("splitv", sv.S, sv.T), sv.S, sv.Signed}
+		}
+	}
 	c.obls = append(c.obls, &Obl{Name: key + ".smoke.requires", Kind: "smoke", Desc: "lemma hypotheses are satisfiable", Prefix: len(c.log), PC: "true", Goal: "false", Smoke: true})
 	for k, en := range ct.Ensures {
-		g := c.evalClause(st, en, env)
-		c.obligeNamed(st, fmt.Sprintf("lemma.%d", k+1), "lemma", token.NoPos, g, "lemma: "+en.Text)
+		for _, ng := range c.clauseGoals(st, en, env) {
+			c.obligeNamed(st, fmt.Sprintf("lemma.%d%s", k+1, ng.suffix), "lemma", token.NoPos, ng.goal, "lemma: "+en.Text+ng.desc)
+		}
 	}
 	return c, nil
 }
@@ -510,6 +523,8 @@ type FuncResult struct {
 	Externs      []string    `json:"assumed_external_contracts,omitempty"`
 	NoMeasure    []string    `json:"loops_without_termination_measure,omitempty"`
 	Error        string      `json:"error,omitempty"`
+	Deferred     string      `json:"deferred,omitempty"`
+	Trusted      bool        `json:"trusted,omitempty"`
 	Inputs       []string    `json:"inputs,omitempty"`
 	GenTimeS     float64     `json:"gen_time_s"`
 }
@@ -532,6 +547,8 @@ func main() {
 	outPath := flag.String("out", "", "write JSON report here")
 	dumpDir := flag.String("dump", "", "dump SMT queries of failed/unknown obligations here")
 	verbose := flag.Bool("v", false, "verbose")
+	tier := flag.String("tier", "quick", "quick | thorough (thorough also runs contracts marked `tier thorough`)")
+	budget := flag.Float64("budget", 0, "global wall-clock budget in seconds (0 = none); remaining queries report unknown")
 	flag.Parse()
 	if *contracts == "" {
 		*contracts = *repo + "/verif_contracts.go"
@@ -554,13 +571,20 @@ func main() {
 	}
 	rep := &Report{BySolver: map[string]int{}}
 	pool := newSolverPool(*jobs, *timeout, *dumpDir)
+	if *budget > 0 {
+		pool.deadline = t0.Add(time.Duration(*budget * float64(time.Second)))
+	}
 	var ctxs []*FnCtx
 	for _, k := range keys {
 		tg := time.Now()
 		var c *FnCtx
 		var err error
+		if ct := prog.Contracts.ByKey[k]; ct != nil && ct.Tier == "thorough" && *tier != "thorough" {
+			rep.Funcs = append(rep.Funcs, FuncResult{Key: k, Deferred: "marked `tier thorough`: not run in the quick tier"})
+			continue
+		}
 		if ct := prog.Contracts.ByKey[k]; ct != nil && ct.Trusted {
-			rep.Funcs = append(rep.Funcs, FuncResult{Key: k, Assumptions: []string{"trusted contract (assumed, not verified)"}})
+			rep.Funcs = append(rep.Funcs, FuncResult{Key: k, Trusted: true, Assumptions: []string{"trusted contract (assumed, not verified)"}})
 			continue
 		}
 		if strings.HasPrefix(k, "lemma:") {
@@ -589,7 +613,7 @@ func main() {
 	// solve
 	idx := 0
 	for fi := range rep.Funcs {
-		if rep.Funcs[fi].Error != "" || len(rep.Funcs[fi].Assumptions) == 1 && rep.Funcs[fi].Assumptions[0] == "trusted contract (assumed, not verified)" {
+		if rep.Funcs[fi].Error != "" || rep.Funcs[fi].Trusted || rep.Funcs[fi].Deferred != "" {
 			if rep.Funcs[fi].Error != "" {
 				idx++
 			}
